@@ -27,7 +27,8 @@ LO, HI = -10 ** 9, 10 ** 9
 
 GROUPS = {'admbase-metric': ('gxx', 'gxy', 'gxz', 'gyy', 'gyz', 'gzz'), 'admbase-curv': ('kxx', 'kxy', 'kxz', 'kyy', 'kyz', 'kzz'),
           'admbase-lapse': ('alp',), 'admbase-shift': ('betax', 'betay', 'betaz'), 'hydrobase-rho': ('rho',)}
-VAR_CHOICES = [['gxx'], ['gammadown3'], ['gxx', 'kxx'], ['gammadown3', 'alpha'], ['alpha', 'rho0'], ['kxy', 'gammadown3']]
+VAR_CHOICES = [['gxx'], ['gammadown3'], ['gxx', 'kxx'], ['gammadown3', 'alpha'], ['alpha', 'rho0'], ['kxy', 'gammadown3'],
+               ['gammadown3', 'gxx'], ['alpha', 'alpha']]        # 6, 7: a tensor together with one of its own components; a repeated name
 
 
 def content(layout):
@@ -156,6 +157,13 @@ def history_configs(tier):
         if tier == 'thorough':
             out.append((layout, [(VAR_CHOICES[0], 2, 0, True), (VAR_CHOICES[1], 2, 1, True), (VAR_CHOICES[1], 2, 0, True)]))
         out.append((layout, [(VAR_CHOICES[1], 1, 0, False), (VAR_CHOICES[0], 1, 0, True), (VAR_CHOICES[1], 2, 0, True)]))
+        # overlapping names in one request, cold then warm cache
+        out.append((layout, [(VAR_CHOICES[6], 2, 0, True), (VAR_CHOICES[6], 2, 0, True)]))
+        if layout == 'grouped':
+            out.append((layout, [(VAR_CHOICES[7], 2, 0, True), (VAR_CHOICES[7], 2, 0, True)]))
+        # refinement levels whose decimal labels contain one another (1 / 10, 2 / 21)
+        out.append((layout, [(VAR_CHOICES[0], 1, 10, True), (VAR_CHOICES[0], 1, 1, True)] if layout == 'grouped'
+                    else [(VAR_CHOICES[1], 1, 21, True), (VAR_CHOICES[1], 1, 2, True)]))
     if tier == 'thorough':
         for layout in ('grouped', 'ungrouped'):
             for a, b, c_ in [(0, 1, 3), (1, 0, 2), (2, 3, 1), (5, 0, 1)]:
@@ -264,7 +272,7 @@ def main(report, tier, seed, workers, calibrate=False):
     cfgs = history_configs(tier)
     report.bounds = dict(history_length='2-3 read_data calls from an empty cache', iterations_per_call='<= 2 (quick) / 3 (thorough), '
                          'symbolic unbounded integers (coincidences between calls explored by forking)',
-                         variable_lists=VAR_CHOICES, layouts=['grouped', 'ungrouped'], levels='rl in {0,1}',
+                         variable_lists=VAR_CHOICES, layouts=['grouped', 'ungrouped'], levels='rl in {0, 1} and the pairs (10, 1), (21, 2)',
                          restarts='one (restart interplay: C11)', thorough_budget=f'histories with more than 5 symbolic iterations: depth-first for {BUDGET_S} s '
                          'each, reported as truncated with the number of paths explored (quick tier: every history exhaustive)', outside=['concurrent readers', 'partially written cache files',
                                                                            'decoding of ET HDF5 files (C11)'])
